@@ -124,30 +124,55 @@ def s2_send(F, R, M, roles, h12, h10):
         sg = supergraph(F, b['id'], opaque=lambda t, bb: bb['id'] in roles, tag='c16')
         S = sg.sym
         n_ok = 0
+        undecided = False
         for n in sg.calls(lambda d: roles.get(d.get('fn')) == 'add_notify_wait_pop'):
-            ins = array_elems(S, S.operand(n.id, n.d['args'][1]))
+            alts = array_alternatives(S, S.operand(n.id, n.d['args'][1]))
             outs = array_elems(S, S.operand(n.id, n.d['args'][2]))
-            if ins is None:
+            if alts is None:
                 R.abstain('S2', '%s:shape' % b['id'], 'cannot recover buffer lists', site(sg, n))
+                undecided = True
                 continue
-            cls = []
-            hdr_default = True
-            for e in ins:
-                bo, ty, base = elem_object(sg, S, e)
-                if ty in (h12, h10):
-                    cls.append('hdr')
+            for ins in alts:
+                cls = []
+                hdr_default = True
+                for e in ins:
+                    bo, ty, base = elem_object(sg, S, e)
                     v = local_value_of_ref(S, base)
-                    if not is_default(v):
-                        hdr_default = False
-                elif base[0] == 'param' or (base[0] == 'ref' and base[1][1][0] == 'deref' and strip_ptr(base[1][1][1])[0] == 'param'):
-                    cls.append('data')
-                else:
-                    cls.append('?')
-            ok = cls in (['hdr'], ['hdr', 'data']) and (outs == [] or outs is not None and not outs) and hdr_default
-            n_ok += 1
-            R.check(ok, 'S2', '%s:shape:%s' % (b['id'], '+'.join(cls)), site(sg, n), 'readable %s, nothing writable, zeroed header' % cls,
-                    'send submits readable %s writable %s (zeroed default header: %s); expected [header] or [header, caller bytes]' % (cls, outs, hdr_default))
+                    if ty not in (h12, h10) and value_type(sg, v) in (h12, h10):
+                        ty = value_type(sg, v)       # a header passed by value to a generic helper
+                    if ty in (h12, h10):
+                        cls.append('hdr')
+                        if not is_default(v):
+                            hdr_default = False
+                    elif data_param(S, base):
+                        cls.append('data')
+                    else:
+                        cls.append('?')
+                ok = cls in (['hdr'], ['hdr', 'data']) and (outs == [] or outs is not None and not outs) and hdr_default
+                n_ok += 1
+                R.check(ok, 'S2', '%s:shape:%s' % (b['id'], '+'.join(cls)), site(sg, n), 'readable %s, nothing writable, zeroed header' % cls,
+                        'send submits readable %s writable %s (zeroed default header: %s); expected [header] or [header, caller bytes]' % (cls, outs, hdr_default))
+        if undecided:
+            continue
         R.check(n_ok >= 2, 'S2', '%s:sites' % b['id'], fn_site(F, b['id']), '%d submission sites' % n_ok, 'send has %d submission sites' % n_ok)
+
+
+def data_param(S, base):
+    """Is this the caller's packet slice: a parameter of the entry point, possibly handed on to an inlined helper?"""
+    for _ in range(4):
+        if base[0] == 'param':
+            return True
+        if base[0] == 'ref' and base[1][1][0] == 'deref':
+            base = strip_ptr(base[1][1][1])
+            continue
+        if base[0] == 'ref' and base[1][1][0] == 'local' and not base[1][2]:
+            v = local_value_of_ref(S, base)
+            if v is None:
+                return False
+            base = strip_ptr(v)
+            continue
+        return False
+    return False
 
 
 def is_default(v):
